@@ -57,6 +57,9 @@ def prepare(flexdir, case, workdir, san=False):
             case.warn_default = True
         if "dangerous trailing context" in line:
             case.dangerous = True
+    if case.cfg.get("instances"):
+        case.T = {"reject": True}; case.status = "ok"     # the instance harness has no table dump (tables are checked elsewhere)
+        return case
     if case.cfg.get("tablesfile"):
         case.T = None; case.status = "ok"     # tables live in the file: no in-code arrays to dump
         return case
